@@ -146,7 +146,7 @@ Definition pd_astimezone (x : dtv) (tz : tzi) (tz_is_pendulum : bool) : result (
 (* DateTime.instance(native): create(fields, tz = pendulum's timezone object for native.tzinfo, fold = native.fold) *)
 Definition pd_instance (y : dtv) (pid : Z) : result dtv :=
   match v_tz y with
-  | None => Ok (mkdtv (v_wall y) false None)                                   (* pendulum.naive(...) *)
+  | None => Ok (mkdtv (v_wall y) (v_fold y) None)                              (* create(..., tz=None, fold=dt.fold): the fold of a naive value is kept *)
   | Some t => pd_create (Some (mktzi pid (tz_fixed t) (tz_zone t))) (v_wall y) (v_fold y)
   end.
 
